@@ -561,6 +561,10 @@ def main(tier, seed):
     maxl = 3 if tier == "quick" else 4
     lists = [list(t) for n in range(maxl + 1)
              for t in itertools.product(U, repeat=n)]
+    # numeric lists with zeros of both kinds (sums and products keep the
+    # kind the operands define: a decimal anywhere makes a decimal)
+    lists += [list(t) for n in range(1, maxl + 1)
+              for t in itertools.product([0, 0.0, 2.5, 3, -0.0], repeat=n)]
     if tier == "thorough":
         lists += [list(t) for n in (5, 6)
                   for t in itertools.product([1, 2, 3], repeat=n)]
